@@ -296,3 +296,13 @@ ENGINES["simple"]["traces"] = {
     "thorough": [_str(k, 80) for k in ("gcounter", "pncounter", "lww", "max", "min", "gset")],
 }
 ENGINES["simple"]["trace_props"] = {"read": ["C11", "C01", "C03", "C08"], "canon": ["C11", "C09"]}
+
+# a panic of the library inside a driver call (or a call that does not return) is an observation, attributed to the
+# type's semantic property and to convergence
+_SEM = {"orswot": "C04", "mvreg": "C06", "map_mv": "C05", "map_or": "C05", "map_map_mv": "C05", "map_map_or": "C05", "map_map_map_mv": "C05",
+        "simple": "C11", "list": "C12", "glist": "C13", "merkle": "C15", "clocks": "C10", "ident": "C14"}
+for _e in ENGINES:
+    ENGINES[_e]["semantic"] = _SEM.get(ENGINES[_e].get("harness_engine", _e), None)
+    if "trace_props" in ENGINES[_e]:
+        for _k in ("panic", "hang"):
+            ENGINES[_e]["trace_props"][_k] = [ENGINES[_e]["semantic"], "C01"] + (["C13"] if _e == "list" else [])
